@@ -105,7 +105,11 @@ func (s *JavaFullListener) GetNodeInfo() []core_domain.CodeDataStruct {
 }
 
 func (s *JavaFullListener) ExitClassBody(ctx *parser.ClassBodyContext) {
-	hasEnterClass = false
+	if currentType != "CreatorClass" {
+		// the end of an anonymous class leaves the walk inside the class being listed: annotations
+		// that follow belong to its members, not to the class
+		hasEnterClass = false
+	}
 	s.exitBody()
 }
 
